@@ -12,11 +12,16 @@ from props import gen_c17 as G
 class C17(Prop):
     id = "C17"
     title = "A program loaded from a saved binary equals what its source compiles to"
-    lean_modules = ["NV.C17.Props", "NV.C17.Witness", "NV.C17.SpecTests"]
+    lean_modules = ["NV.C17.Props", "NV.C17.BinFileLemmas", "NV.C17.Top", "NV.C17.Witness", "NV.C17.SpecTests"]
     theorems = [
+        "NV.C17.model_use_passes_stale_clause",
+        "NV.C17.model_save_passes_outdated_clause",
         "NV.C17.never_stale",
         "NV.C17.never_stale_transitive",
         "NV.C17.fresh_binary_used",
+        "NV.C17.include_resolution_partial",
+        "NV.C17.saved_only_against_current_parents",
+        "NV.C17.current_parents_are_saved",
         "NV.C17.swap_loop_correct",
         "NV.C17.perm_sort_correct",
         "NV.C17.remap_points_at_same_function",
@@ -26,6 +31,19 @@ class C17(Prop):
         "NV.C17.switch_tables_sorted_after_patch",
         "NV.C17.patch_roundtrip",
         "NV.C17.all_string_switches_patched",
+        "NV.C17.quickSort_perm",
+        "NV.C17.quickSort_sorted",
+        "NV.C17.sort_perm_from_quicksort",
+        "NV.C17.function_table_sorted",
+        "NV.C17.patch_in_total",
+        "NV.C17.relocation_members_tied",
+        "NV.C17.every_pointer_member_handled",
+        "NV.C17.only_switch_keys_are_addresses",
+        "NV.C17.qsort_statements_tied",
+        "NV.C17.binary_file_roundtrip",
+        "NV.C17.decoded_file_has_valid_checksum",
+        "NV.C17.getField_checks_length",
+        "NV.C17.byte_model_follows_source_layout",
         "NV.C17.layout_write_read_agree",
         "NV.C17.layout_checksum_covers_file",
     ]
@@ -36,47 +54,66 @@ class C17(Prop):
         "NV.C17.old_config_id_blind",
         "NV.C17.old_indirect_inherit_not_checked",
         "NV.C17.conditional_patch_list_misses_switch",
+        "NV.C17.old_saved_against_outdated_parent",
+        "NV.C17.include_shadowing_not_seen",
     ]
     consts = [("switchCaseSize", "SWITCH_CASE_SIZE"), ("fSwitch", "F_SWITCH"), ("nameInherited", "NAME_INHERITED"),
               ("indexStartNone", "INDEX_START_NONE"), ("sizeofProgram", "sizeof(program_t)"),
               ("sizeofCompilerFunction", "sizeof(compiler_function_t)"),
-              ("sizeofRuntimeFunction", "sizeof(runtime_function_u)")]
+              ("sizeofRuntimeFunction", "sizeof(runtime_function_u)"),
+              # where load_binary finds the four counts inside the program block it has just read (NV/C17/BinFile.lean)
+              ("offNumInherited", "offsetof(program_t, num_inherited)"), ("offNumStrings", "offsetof(program_t, num_strings)"),
+              ("offNumVariablesDefined", "offsetof(program_t, num_variables_defined)"),
+              ("offNumFunctionsDefined", "offsetof(program_t, num_functions_defined)"),
+              ("offTotalSize", "offsetof(program_t, total_size)"), ("sizeofCount", "sizeof(((program_t *)0)->num_inherited)"),
+              ("sizeofFunctionNumber", "sizeof(((program_t *)0)->num_functions_defined)")]
     const_headers = ["src/interpret.h", "lpc/program.h", "efuns_opcode.h"]
     quick_n = 800
     thorough_n = 6000
     search_n = 200
     design_ref = "5/C17"
-    technique = ("Lean 4 proof (decision logic of load_binary; sort_function_table swap loop, f_index remap, type_start; "
-                 "locate_out/locate_in; patch_out/patch_in) + source-derived constants and comparison sites + unit-style "
-                 "correspondence on the real static functions + translation validation of whole programs (fresh compile vs "
-                 "load from binary, model-on-real-tables) + independent staleness oracle over mtime histories")
-    level_text = ("Lean 4 theorems about an executable model of lib/lpc/program/binaries.c: the binary is used only when "
-                  "no dependency is newer - source, includes, simul_efun file, and for every program reachable through inherit "
-                  "lists its source, its includes and its saved binary (never_stale_transitive) - and both ids match; the in-place sort by swaps yields the sorted table for every "
-                  "table and every order, remapped f_index entries point at the same functions, type_start follows; "
-                  "relocation round-trips; string switch tables are sorted the way f_switch searches.  Equality of whole "
-                  "programs is by correspondence: generated programs are compiled, dumped, reloaded from the binary and "
-                  "dumped again; the Lean model predicts the reloaded dump from the fresh one and the Lean oracle compares "
-                  "functions, variables, inherits, line info, code and call results")
-    level_note = ("trusted: Lean kernel; nvlib/extract.py + the regular expressions of props/c17.py that read driver_id, "
-                  "magic_id and the comparison sites; the harness (differential; only generated programs and histories); "
-                  "quickSort is modelled by its contract (sorted permutation); byte-level file format and corrupted .b files "
-                  "are not covered; the program generator is a grammar of shapes, not all LPC")
-    rule = ("cases = corpus + known-finding inputs + boundary list + seeded random cases of five kinds: usort (random "
+    technique = ("Lean 4 proof (decision logic of load_binary and of save_binary's outdated-parent test; the code of qsort.c; "
+                 "sort_function_table swap loop, f_index remap, type_start; locate_out/locate_in; patch_out/patch_in; byte-level "
+                 "encode/decode of the .b file) + source-derived constants, member lists, statement orders and function texts + "
+                 "unit-style correspondence on the real static functions and the real quickSort + real .b files decoded by the "
+                 "model + translation validation of whole programs (fresh compile vs load from binary, model-on-real-tables) + "
+                 "independent staleness oracle over mtime / load histories")
+    level_text = ("Lean 4 theorems about an executable model of lib/lpc/program/binaries.c and lib/misc/qsort.c: the binary is used "
+                  "only when no dependency is newer - source, includes, simul_efun file, and for every program reachable through "
+                  "inherit lists its source, its includes and its saved binary (never_stale_transitive) - and both ids match; a "
+                  "binary is written only for a program whose inherited programs, at any depth, are still current in memory "
+                  "(saved_only_against_current_parents); quickSort as coded permutes for every comparison function and sorts for "
+                  "strict orders, so the function table and every string switch table come out in the order their searches "
+                  "assume; the in-place sort by swaps, the f_index remap and type_start follow; relocation round-trips and covers "
+                  "every pointer member; the byte format round-trips (binary_file_roundtrip) and every read is length-checked.  "
+                  "Equality of whole programs is by correspondence: generated programs are compiled, dumped, reloaded from the "
+                  "binary and dumped again; the Lean model predicts the reloaded dump from the fresh one and the Lean oracle "
+                  "compares functions, variables, inherits, line info, code and call results")
+    level_note = ("trusted: Lean kernel; nvlib/extract.py + the regular expressions of props/c17.py that read ids, member "
+                  "lists, statement orders and function texts; the harness (differential; only generated programs and "
+                  "histories); the compiler is not modelled (its dumps are data); no judge(model trace) = [] for whole "
+                  "histories - clause-level top theorems for the never-stale and outdated-parent clauses "
+                  "(model_use_passes_stale_clause, model_save_passes_outdated_clause), invariants for the others; open finding C17-include-shadowed (include search order); the "
+                  "program generator is a grammar of shapes, not all LPC")
+    rule = ("cases = corpus + known-finding inputs + boundary list + seeded random cases of six kinds: uqsort (the real quickSort "
+            "on 0..250 elements of 4/8/10 bytes under comparison tables that are orders, preorders, constant or random), usort (random "
             "function tables, permutations, compressed-table headers, type_start), ureloc, upatch (random string switch "
             "tables, far-apart fake addresses, offsets above 32767), utimes, and system histories (generated program "
             "families with string switches, inheritance chains, includes, classes, function literals, save_types; steps "
             "compile / edit source / edit include / touch inherited / touch simul_efun + restart / nothing, distinct mtimes, "
-            "touch simul_efun without restart / damage (truncation, bit flip) / foreign (other magic, driver_id, config_id) / "
+            "touch simul_efun without restart / parent edited (variables and functions shift) but not loaded again while its heirs are compiled / "
+            "parent compiled again but not saved again so that its binary on disk is a leftover (the header with its pragma loses it; the master refuses the save) / damage (truncation, bit flip) / foreign (other magic, driver_id, config_id) / "
             "binary moved to another name / failing compile first; pragma on top, between functions, last line, in an include, "
             "toggled; chains with unsaved parents; every reload either in the same process or each in a fresh process; "
-            "reload after every step with permuted string addresses; every decision branch of the model is taken (histogram.decision_branches); non-trivial = trace with >= 2 lines; distinct = "
+            "in half of the cases a reference compile of the current sources (own process, no binaries) before every reload, which the program loaded from a binary is compared with; reload after every step with permuted string addresses; every decision branch of the model is taken (histogram.decision_branches); non-trivial = trace with >= 2 lines; distinct = "
             "distinct canonical implementation trace")
-    not_covered = ["byte-level layout of the .b file; damaged .b files are only explored (random truncations / bit flips under ASan, counts in the evidence): flipped bits inside the saved program_t can crash the driver (open exploration finding C17-damaged-binary-crash)",
-                   "quickSort itself (modelled by its contract; the comparators are modelled exactly)",
-                   "an inherited program that was edited but not reloaded before its heir was compiled (mtime schemes cannot see it)",
-                   "a new include file that shadows a recorded one earlier in the search path",
-                   "LPC_TO_C, Windows paths"]
+    not_covered = ["an include file shadowed by a new file earlier in the search path: open finding C17-include-shadowed "
+                   "(witness + partial theorem; replayed from the known input only, not generated)",
+                   "the refusal branches of save_binary for programs / include lists above USHRT_MAX and strings of USHRT_MAX "
+                   "or more (they are the hypotheses of binary_file_roundtrip; no generated program is that large)",
+                   "clock granularity: an edit in the same second as a load or a save (the quantifier has distinct times)",
+                   "crdir_fopen, valid_save_binary refusals, re-entrancy of the master apply inside save_binary",
+                   "f_switch's binary search itself (C03); LPC_TO_C, Windows paths"]
 
     # ---- stage A: generated Lean from the source text ---------------------
     def gen_extra(self, ctx, bdir):
@@ -162,6 +199,18 @@ class C17(Prop):
                               "(found: %s)" % (m.group(1).strip() if m else "site not found"))
         if len(re.findall(r"add_to_mem_block\s*\(A_PATCH", ic)) != 1:
             raise X.TieBroken("icode.c:A_PATCH", "expected exactly one place that appends to A_PATCH")
+        cfgw = need("config_id", r"static\s+uint(\d+)_t\s+config_id\s*=").group(1)
+        drvw = need("driver_id.width", r"static\s+uint(\d+)_t\s+driver_id\s*=").group(1)
+        layout += ["/-- C: width in bytes of `static uint%s_t driver_id` / `static uint%s_t config_id` as written with sizeof -/" % (drvw, cfgw),
+                   "def driverIdBytes : Nat := %d" % (int(drvw) // 8), "def configIdBytes : Nat := %d" % (int(cfgw) // 8)]
+        for nm in ("driver_id", "config_id"):
+            if not re.search(r"fwrite \(\(char \*\) &%s, sizeof \(%s\), 1, f\)" % (nm, nm), sv) or \
+                    not re.search(r"fread \(\(char \*\) &bin_%s, sizeof \(bin_%s\), 1, f\)" % (nm, nm), lb) or \
+                    not re.search(r"uint%s_t bin_%s;" % (drvw if nm == "driver_id" else cfgw, nm), lb):
+                raise X.TieBroken("binaries.c:preamble", "%s is no longer written and read with its own size" % nm)
+        layout += self.gen_functions(src, sv)
+        layout += self.gen_relocation(src, lb, ic)
+        layout += self.gen_qsort()
         return "\n".join([
             "/-- C: `static uint32_t driver_id` in lib/lpc/program/binaries.c -/",
             "def driverId : Nat := %d" % int(drv, 0),
@@ -170,6 +219,146 @@ class C17(Prop):
             "/-- C: check_times() answers 0 (out of date) when `st.st_mtime %s mtime` -/" % op,
             "def checkTimesStrict : Bool := %s" % ("true" if op == ">" else "false"),
         ] + layout)
+
+    def gen_functions(self, src, sv):
+        """small functions the model mirrors statement by statement: their text (comments and white space removed) must be
+        the text the model was written from; the character of compare_compiler_funcs goes into Gen"""
+        def body(start, end):
+            a = src.index(start)
+            t = src[a:src.index(end, a)]
+            t = re.sub(r"/\*.*?\*/", "", t, flags=re.S)
+            return re.sub(r"\s+", "", t)
+        want = {
+            "compare_compiler_funcs": ("compare_compiler_funcs (int *x, int *y)", "static void\nsort_function_table",
+                                       "compare_compiler_funcs(int*x,int*y){char*n1=comp_prog->function_table[*x].name;"
+                                       "char*n2=comp_prog->function_table[*y].name;if(n1[0]=='#'){if(n2[0]=='#')return0;return1;}"
+                                       "if(n2[0]=='#')return-1;if(n1<n2)return-1;if(n1>n2)return1;return0;}"),
+            "str_case_cmp": ("str_case_cmp (char *a, char *b)\n{", "static void\npatch_in",
+                             "str_case_cmp(char*a,char*b){char*s1,*s2;COPY_PTR(&s1,a);COPY_PTR(&s2,b);"
+                             "if((intptr_t)s1<(intptr_t)s2)return-1;if((intptr_t)s1>(intptr_t)s2)return1;return0;}"),
+            "check_times": ("check_times (time_t mtime, const char *nm)\n{", "/*\n * Is anything a loaded",
+                            "check_times(time_tmtime,constchar*nm){structstatst;if(stat(nm,&st)==-1)return-1;"
+                            "if(st.st_mtime>mtime){return0;}return1;}"),
+            "inherited_program_newer": ("inherited_program_newer (time_t mtime, program_t * prog)\n{", "/*\n * Is a loaded (inherited) program no longer",
+                                        "inherited_program_newer(time_tmtime,program_t*prog){charbin_name[PATH_MAX];char*bn=bin_name;size_tlen;inti;"
+                                        "if(prog->file_info){intend=prog->file_info[1];for(i=2;i+1<end;i+=2){intid=prog->file_info[i+1];"
+                                        "if(id>0&&id<=(int)prog->num_strings&&check_times(mtime,prog->strings[id-1])==0)return1;}}"
+                                        "if(prog->name&&strlen(CONFIG_STR(__SAVE_BINARIES_DIR__))+strlen(prog->name)+2<sizeof(bin_name)){"
+                                        "sprintf(bn,\"%s/%s\",CONFIG_STR(__SAVE_BINARIES_DIR__),prog->name);if(bn[0]=='/')bn++;len=strlen(bn);"
+                                        "bn[len-1]='b';if(check_times(mtime,bn)==0)return1;}"
+                                        "for(i=0;i<(int)prog->num_inherited;i++){if(inherited_program_newer(mtime,prog->inherit[i].prog))return1;}"
+                                        "return0;}"),
+            "inherited_program_outdated": ("inherited_program_outdated (program_t * prog)\n{", "/*\n * Routines to do some hacking",
+                                           "inherited_program_outdated(program_t*prog){object_t*ob;inti;"
+                                           "if(!prog->name||!(ob=find_object_by_name(prog->name))||ob->prog!=prog)return1;"
+                                           "if(prog->file_info){intend=prog->file_info[1];for(i=2;i+1<end;i+=2){intid=prog->file_info[i+1];"
+                                           "if(id>0&&id<=(int)prog->num_strings&&check_times(ob->load_time,prog->strings[id-1])==0)return1;}}"
+                                           "for(i=0;i<(int)prog->num_inherited;i++){if(inherited_program_outdated(prog->inherit[i].prog))return1;}"
+                                           "return0;}"),
+        }
+        for name, (start, end, text) in want.items():
+            try:
+                got = body(start, end)
+            except ValueError:
+                raise X.TieBroken("binaries.c:" + name, "function `%s` not found" % name)
+            if not got.startswith(text):
+                raise X.TieBroken("binaries.c:" + name, "the text of `%s` is no longer the one the model mirrors: %s" % (name, got[:400]))
+        # save_binary asks inherited_program_outdated() for every inherited program before it opens the file
+        a, b = sv.find("inherited_program_outdated (prog->inherit[i].prog)"), sv.find("crdir_fopen (file_name)")
+        if a < 0 or b < 0 or a > b or not re.search(r"for \(i = 0; i < \(int\) prog->num_inherited; i\+\+\)\s*\{\s*if \(inherited_program_outdated", sv):
+            raise X.TieBroken("save_binary:outdated-parents", "save_binary no longer refuses, before writing, a program whose inherited programs are outdated")
+        m = re.search(r"if\s*\(n1\[0\]\s*==\s*'(.)'\)", src)
+        return ["/-- C: `if (n1[0] == '%s')` in compare_compiler_funcs: the names that stay last -/" % m.group(1),
+                "def lastNameChar : Char := '%s'" % m.group(1)]
+
+    def gen_relocation(self, src, lb, ic):
+        """which pointer members of program_t exist, which of them locate_out / locate_in relocate (and which only under
+        `if (prog->type_start)`), which load_binary re-creates, and which operands the code generator emits as addresses"""
+        ph = open(os.path.join(E.REPO, "lib/lpc/program.h")).read()
+        m = re.search(r"typedef struct program_s\s*\{(.*?)\}\s*program_t;", ph, re.S)
+        if not m:
+            raise X.TieBroken("program.h:program_t", "struct program_s not found")
+        body = re.sub(r"/\*.*?\*/", "", m.group(1), flags=re.S)
+        ptrs, scalars = [], []
+        for decl in body.split(";"):
+            decl = " ".join(l for l in decl.splitlines() if not l.strip().startswith("#")).strip()
+            if not decl:
+                continue
+            mm = re.match(r"^[\w\s]+?(\*+)\s*(\w+)$", decl)
+            if mm:
+                ptrs.append(mm.group(2))
+            else:
+                mm = re.match(r"^[\w\s]+?\b(\w+)$", decl)
+                if not mm:
+                    raise X.TieBroken("program.h:program_t", "member declaration not understood: %r" % decl)
+                scalars.append(mm.group(1))
+
+        def members(fn, macro):
+            a = src.index("\n%s (program_t * prog)" % fn)
+            text = src[a:src.index("return 1;", a)]
+            text = re.sub(r"#\s*(ifdef|endif)[^\n]*", "", text)
+            cond = re.search(r"if\s*\(prog->type_start\)\s*\{(.*?)\}", text, re.S)
+            if not cond:
+                raise X.TieBroken("binaries.c:%s" % fn, "the `if (prog->type_start)` block was not found")
+            out = []
+            for mm in re.finditer(r"prog->(\w+)\s*=\s*(?:\([^()]*\)\s*)?%s\s*\(prog->(\w+),\s*prog\)\s*;" % macro, text):
+                if mm.group(1) != mm.group(2):
+                    raise X.TieBroken("binaries.c:%s" % fn, "member %s is assigned from member %s" % (mm.group(1), mm.group(2)))
+                out.append((mm.group(1), cond.start(1) <= mm.start() < cond.end(1)))
+            if len(out) != len(re.findall(r"\b%s\s*\(" % macro, text)):
+                raise X.TieBroken("binaries.c:%s" % fn, "a use of %s was not understood" % macro)
+            return out
+        lo, li = members("locate_out", "DIFF"), members("locate_in", "ADD")
+        if not re.search(r"#define DIFF\(x, y\) \(\(char \*\)\(x\) - \(char \*\)\(y\)\)", src) or \
+                not re.search(r"#define ADD\(x, y\) \(&\(\(\(char \*\)\(y\)\)\[\(intptr_t\)x\]\)\)", src):
+            raise X.TieBroken("binaries.c:DIFF/ADD", "the relocation macros are no longer `x - y` / `y + x` on char pointers")
+        assigned = sorted(set(re.findall(r"\bp->(\w+)\s*=[^=]", lb)))
+        ops = [re.sub(r"\s+", " ", x.strip()) for x in re.findall(r"\bins_intptr\s*\(([^;]*)\)\s*;", ic)]
+
+        def pairs(xs):
+            return "[" + ", ".join('("%s", %s)' % (a, "true" if b else "false") for a, b in xs) + "]"
+
+        def strs(xs):
+            return "[" + ", ".join('"%s"' % x.replace('"', "'") for x in xs) + "]"
+        return ["/-- C: the pointer-typed members of `program_t` (lib/lpc/program.h), in declaration order -/",
+                "def programPointerMembers : List String := " + strs(ptrs),
+                "/-- C: the other members of `program_t` -/",
+                "def programScalarMembers : List String := " + strs(scalars),
+                "/-- C: `prog->m = DIFF (prog->m, prog)` in locate_out, in order; true = inside `if (prog->type_start)` -/",
+                "def locateOutMembers : List (String × Bool) := " + pairs(lo),
+                "/-- C: `prog->m = ADD (prog->m, prog)` in locate_in -/",
+                "def locateInMembers : List (String × Bool) := " + pairs(li),
+                "/-- C: the members `p->m = ...` that load_binary assigns itself -/",
+                "def loadBinaryAssigns : List String := " + strs(assigned),
+                "/-- C: every operand the code generator stores with `ins_intptr` (lib/lpc/program/icode.c) -/",
+                "def intptrOperands : List String := " + strs(ops)]
+
+    def gen_qsort(self):
+        """the statements of lib/misc/qsort.c that NV/C17/QSort.lean mirrors"""
+        q = open(os.path.join(E.REPO, "lib/misc/qsort.c")).read()
+        q = re.sub(r"\s+", " ", re.sub(r"/\*.*?\*/", "", q, flags=re.S))
+        a = q.index("static void qSort (void *v")
+        body = q[a:]
+        want = [("guard", "if ((left >= right) || (left < 0) || (right > rightmost) || (right < 0)) { return; }"),
+                ("pivot", "doSwap ((char *) v + szleft, (char *) v + (size * ((left + right) / 2)), size);"),
+                ("init", "last = left;"),
+                ("loop", "for (i = left + 1; i <= right; i++)"),
+                ("test", "if ((*compar) ((char *) v + (size * i), (char *) v + szleft) < 0)"),
+                ("move", "doSwap ((char *) v + (size * ++last), (char *) v + (size * i), size);"),
+                ("place", "doSwap ((char *) v + szleft, (char *) v + (size * last), size);"),
+                ("left", "qSort (v, left, last - 1, size, rightmost, compar);"),
+                ("right", "qSort (v, last + 1, right, size, rightmost, compar);"),
+                ("small", "if (nmemb < 2) { return; }"),
+                ("top", "qSort (a, 0, nmemb - 1, size, nmemb - 1, compar);")]
+        pos = [body.find(t) for _, t in want]
+        if -1 in pos or pos != sorted(pos):
+            raise X.TieBroken("qsort.c:qSort", "the statements of qSort/quickSort are no longer the modelled ones, in the modelled order: %s"
+                              % [n for (n, _), p in zip(want, pos) if p < 0] )
+        if not re.search(r"while \(size--\) \{ t = \*one; \*\(one\+\+\) = \*two; \*\(two\+\+\) = t; \}", q):
+            raise X.TieBroken("qsort.c:doSwap", "doSwap no longer exchanges the two elements byte by byte")
+        nstm = len(re.findall(r";", body))
+        return ["/-- C: number of `;` in qSort + quickSort (lib/misc/qsort.c); the model mirrors exactly these statements -/",
+                "def qsortStatements : Nat := %d" % nstm]
 
     # ---- stage C ------------------------------------------------------------
     def prepare(self, ctx):
@@ -210,6 +399,47 @@ class C17(Prop):
         for c in cases:
             ms.append(E.Case(c.id, c.lines + ["--"] + self.impl_cache.get(c.id, [])))
         return E.nvdrive(self.id, "model", E.cases_text(ms))
+
+    def shrink_ok(self, lines):
+        """a shrunk system case must stay a well-formed history: it removes its directory first, and everything its
+        reloads need (declaration, source, modification time of every program of the family, of their parents and of
+        their include files; the simul_efun time; the start-up) is set up before the first reload.  Otherwise the
+        replay would show a model / implementation difference of its own on an unchanged tree."""
+        first = next((i for i, l in enumerate(lines) if l.startswith(("reload ", "reloadp "))), None)
+        if first is None:
+            return True
+        head = lines[:first]
+        if not head or not head[0].startswith("clean ") or not any(l.startswith("restart ") for l in head) \
+                or not any(l.startswith("mtime /simul_efun.c ") for l in head):
+            return False
+        progs = {}
+        for l in head:
+            t = l.split()
+            if t[0] == "prog":
+                kv = dict(x.split("=", 1) for x in t[2:] if "=" in x)
+                progs[t[1]] = kv
+        have_file = set(l.split()[1].lstrip("/") for l in head if l.startswith("file ") and len(l.split()) > 1)
+        have_time = set(l.split()[1].lstrip("/") for l in head if l.startswith("mtime ") and len(l.split()) > 1)
+        need = set()
+        for l in lines:
+            t = l.split()
+            if t and t[0] in ("reload", "reloadp", "reloadf", "restart", "bindump"):
+                need |= set(x + ".c" for x in t[1:] if x != "|")
+        seen = set()
+        while need:
+            p = need.pop()
+            if p in seen:
+                continue
+            seen.add(p)
+            if p not in progs or p not in have_file or p not in have_time:
+                return False
+            for f in progs[p].get("inc", "-").split(","):
+                if f != "-" and (f not in have_file or f not in have_time):
+                    return False
+            for q in progs[p].get("inh", "-").split(","):
+                if q != "-":
+                    need.add(q)
+        return True
 
     # ---- generators ---------------------------------------------------------
     def boundary(self):
